@@ -6,5 +6,6 @@ INVARIANT QuoteRoundTrip
 INVARIANT RefFaithful
 INVARIANT NaivePitfalls
 INVARIANT DefaultCTOnlyWithData
+INVARIANT StaleRefuted
 INVARIANT Export
 CHECK_DEADLOCK FALSE
